@@ -346,6 +346,50 @@ func ruleSecureOrder(c *Ctx) {
 			}
 		}
 	}
+	if !okGate {
+		// the same requirement as a feasible-reachability query from the entry of
+		// Start: with a SecureConfig (edges asserting it is nil removed) and the
+		// passing edge of either result removed, no launch site is reachable. This
+		// form also holds when the check sits in an (inlined) helper that only
+		// reports an error which Start tests afterwards.
+		scNil := func(x *Edge) bool {
+			a, ok := edgeAtom(info, x)
+			return ok && a.Kind == "nil" && a.Op == token.EQL && SelField(info, a.X) == scF
+		}
+		tested := false
+		for _, m := range g.Nodes {
+			for _, e := range m.Succs {
+				if scNil(e) {
+					tested = true
+				}
+				if a, ok := edgeAtom(info, e); ok && a.Kind == "nil" && a.Op == token.NEQ && SelField(info, a.X) == scF {
+					tested = true
+				}
+			}
+		}
+		leak := !tested
+		for _, cutter := range []func(*Edge) bool{
+			func(x *Edge) bool {
+				a, ok := edgeAtom(info, x)
+				return ok && a.Kind == "bool" && a.True && identObj(info, a.X) == okV
+			},
+			func(x *Edge) bool {
+				a, ok := edgeAtom(info, x)
+				return ok && a.Kind == "nil" && a.Op == token.EQL && identObj(info, a.X) == errV
+			},
+		} {
+			cf := cutter
+			fr := p.FeasibleReach(f, []*Node{g.Entry}, nil, func(x *Edge) bool { return cf(x) || scNil(x) })
+			for ln := range si.launch {
+				if fr[ln] {
+					leak = true
+				}
+			}
+		}
+		if !leak {
+			okGate = true
+		}
+	}
 	if okGate && same {
 		c.R.Hold("R-ORDER/O1", p.Pos(chkN.Ast), f.Name, "checksum gate", "with a SecureConfig every launch site is reachable only after Check(cmd.Path) returned (true, nil), for the command that is launched", true)
 	} else {
@@ -538,6 +582,8 @@ func ruleSentinelSecure(c *Ctx) {
 			}, nil)
 			if _, miss := seen[sg.Exit]; !miss {
 				good = true
+			} else if p.sentinelOnEveryPath(st, e.To, sent) {
+				good = true
 			}
 		}
 	}
@@ -546,4 +592,72 @@ func ruleSentinelSecure(c *Ctx) {
 	} else {
 		c.R.Violate("R-SENT", p.Pos(st.Node()), st.Name, "mismatch -> ErrChecksumsDoNotMatch", "a checksum mismatch does not return ErrChecksumsDoNotMatch", nil)
 	}
+}
+
+// sentinelOnEveryPath: every feasible path from start ends in a return whose
+// last result is the sentinel, directly or through local error variables that,
+// within the region reachable from start, are only ever assigned the sentinel
+// (or another such variable). Covers `err = ErrX; break ...; if err != nil { return nil, err }`.
+func (p *Prog) sentinelOnEveryPath(f *Func, start *Node, sent types.Object) bool {
+	if sent == nil {
+		return false
+	}
+	info := f.Pkg.TypesInfo
+	g := p.Graph(f)
+	isRet := func(x *Node) bool { _, ok := x.Ast.(*ast.ReturnStmt); return ok }
+	states := p.FeasibleStates(f, []*Node{start}, NewStore(), nil, nil, nil, isRet)
+	if _, r := states[g.Exit]; r {
+		return false
+	}
+	// variables that hold the sentinel throughout the region
+	holds := map[types.Object]bool{}
+	for changed := true; changed; {
+		changed = false
+		cand := map[types.Object]bool{}
+		bad := map[types.Object]bool{}
+		for m := range states {
+			as, ok := m.Ast.(*ast.AssignStmt)
+			if !ok {
+				continue
+			}
+			for i, l := range as.Lhs {
+				o := identObj(info, l)
+				if o == nil || !isErrorType(o.Type()) {
+					continue
+				}
+				if len(as.Rhs) != len(as.Lhs) {
+					bad[o] = true
+					continue
+				}
+				r := identObj(info, as.Rhs[i])
+				if r == sent || (r != nil && holds[r]) {
+					cand[o] = true
+				} else {
+					bad[o] = true
+				}
+			}
+		}
+		for o := range cand {
+			if !bad[o] && !holds[o] {
+				holds[o] = true
+				changed = true
+			}
+		}
+	}
+	n := 0
+	for m := range states {
+		rs, ok := m.Ast.(*ast.ReturnStmt)
+		if !ok {
+			continue
+		}
+		n++
+		if len(rs.Results) == 0 {
+			return false
+		}
+		o := identObj(info, rs.Results[len(rs.Results)-1])
+		if o != sent && !holds[o] {
+			return false
+		}
+	}
+	return n > 0
 }
